@@ -2764,6 +2764,15 @@ impl<'ctx> ByteCompiler<'ctx> {
     #[must_use]
     #[allow(clippy::missing_const_for_fn)]
     pub fn finish(mut self) -> CodeBlock {
+        #[cfg(boa_verif)]
+        if crate::verif::codeblock::code_block_log_enter() {
+            // Logging path: finish through the normal path below, then record the result.
+            let open_envs_at_finish = self.current_open_environments_count;
+            let block = self.finish();
+            crate::verif::codeblock::code_block_log_exit(&block, open_envs_at_finish);
+            return block;
+        }
+
         // Push return at the end of the function compilation.
         if let Some(async_handler) = self.async_handler {
             self.patch_handler(async_handler);
